@@ -84,3 +84,256 @@ theorem lenInstructions_written {strict : Bool} :
         exact ih t rest ht
 
 end Clvm.Serde2026
+
+namespace Clvm.Serde2026
+open Clvm Clvm.Intern Clvm.Varint
+
+theorem wv_range {v : Int} {b : Bytes} (h : wv v = .ok b) : -(2 : Int) ^ 55 ≤ v ∧ v < (2 : Int) ^ 55 := by
+  unfold wv at h
+  split at h
+  · rename_i b' hb; exact (Props.C21.write_total_iff v).1 ⟨b', hb⟩
+  · cases h
+
+/-- room in the caller's allocator for `n` more atoms totalling `bytes` bytes -/
+def Room (c : Counters) (bytes n : Nat) : Prop := c.heap + bytes ≤ c.heapLimit ∧ c.atoms + n ≤ Gen.maxNumAtoms
+
+/-- counters after `n` more atoms totalling `bytes` bytes -/
+def bumpAtoms (c : Counters) (bytes n : Nat) : Counters := { c with heap := c.heap + bytes, atoms := c.atoms + n }
+
+theorem bumpAtoms_zero (c : Counters) : bumpAtoms c 0 0 = c := by cases c; rfl
+
+theorem bumpAtoms_bumpAtoms (c : Counters) (a m b n : Nat) :
+    bumpAtoms (bumpAtoms c a m) b n = bumpAtoms c (a + b) (m + n) := by
+  simp [bumpAtoms, Nat.add_assoc]
+
+/-- reading back the atoms of one group -/
+theorem readAtoms_written {length : Nat} : ∀ (as : List Bytes) (rest : Bytes) (ctr : Counters) (acc : List Bytes),
+    (∀ a ∈ as, a.length = length) → Room ctr (length * as.length) as.length →
+    readAtoms length as.length (as.flatten ++ rest) ctr acc =
+      .ok (rest, bumpAtoms ctr (length * as.length) as.length, acc ++ as) := by
+  intro as
+  induction as with
+  | nil => intro rest ctr acc _ _; simp [readAtoms, bumpAtoms_zero]
+  | cons a tl ih =>
+    intro rest ctr acc hlen hroom
+    have ha : a.length = length := hlen a (by simp)
+    have htl : ∀ x ∈ tl, x.length = length := fun x hx => hlen x (by simp [hx])
+    simp only [List.length_cons, List.flatten_cons, List.append_assoc]
+    rw [readAtoms]
+    have h1 : ¬ ((a ++ (tl.flatten ++ rest)).length < length) := by simp; omega
+    rw [if_neg h1]
+    obtain ⟨r1, r2⟩ := hroom
+    simp only [List.length_cons, Nat.mul_succ] at r1 r2
+    have hna : ctr.newAtom length = .ok (bumpAtoms ctr length 1) := by
+      unfold Counters.newAtom
+      have c1 : ¬ (ctr.heap + length > ctr.heapLimit) := by omega
+      have c2 : (ctr.atoms == Gen.maxNumAtoms) = false := by simp; omega
+      simp [c1, c2, bumpAtoms]
+    rw [hna]
+    simp only
+    have hd : (a ++ (tl.flatten ++ rest)).drop length = tl.flatten ++ rest := by
+      rw [← ha]; simp
+    have ht : (a ++ (tl.flatten ++ rest)).take length = a := by
+      rw [← ha]; simp
+    rw [hd, ht, ih rest (bumpAtoms ctr length 1) (acc ++ [a]) htl ⟨by simp [bumpAtoms]; omega, by simp [bumpAtoms]; omega⟩]
+    rw [bumpAtoms_bumpAtoms]
+    have e1 : length + length * tl.length = length * (tl.length + 1) := by rw [Nat.mul_succ]; omega
+    have e2 : 1 + tl.length = tl.length + 1 := by omega
+    rw [e1, e2]
+    simp
+
+/-- a group as the serializer writes it: non-empty, uniform non-zero length within the bounds -/
+def GroupOK (mal allocCap : Nat) (g : Nat × List Bytes) : Prop :=
+  g.2 ≠ [] ∧ (∀ a ∈ g.2, a.length = g.1) ∧ 1 ≤ g.1 ∧ g.1 ≤ mal ∧ g.1 ≤ allocCap
+
+def groupBytes (groups : List (Nat × List Bytes)) : Nat := (groups.map fun g => g.1 * g.2.length).sum
+def groupAtomCount (groups : List (Nat × List Bytes)) : Nat := (groups.map fun g => g.2.length).sum
+
+theorem groupBytes_cons (g : Nat × List Bytes) (tl : List (Nat × List Bytes)) :
+    groupBytes (g :: tl) = g.1 * g.2.length + groupBytes tl := by simp [groupBytes]
+
+theorem groupAtomCount_cons (g : Nat × List Bytes) (tl : List (Nat × List Bytes)) :
+    groupAtomCount (g :: tl) = g.2.length + groupAtomCount tl := by simp [groupAtomCount]
+
+theorem checkedUsize_nat (n : Nat) : checkedUsize (n : Int) = .ok n := by
+  unfold checkedUsize
+  have : ¬ ((n : Int) < 0) := by omega
+  simp [this]
+
+theorem checkedBoundedUsize_nat (n m : Nat) (h : n ≤ m) : checkedBoundedUsize (n : Int) m = .ok n := by
+  unfold checkedBoundedUsize
+  rw [checkedUsize_nat]
+  simp only
+  rw [if_neg (by omega)]
+
+/-- the decoder reads back a written atom table -/
+theorem readGroups_written {allocCap mal : Nat} {strict : Bool} :
+    ∀ (groups : List (Nat × List Bytes)) (bs rest : Bytes) (ctr : Counters) (acc : List Bytes),
+    (∀ g ∈ groups, GroupOK mal allocCap g) → writeGroups groups = .ok bs →
+    Room ctr (groupBytes groups) (groupAtomCount groups) →
+    readGroups allocCap mal strict groups.length (bs ++ rest) ctr acc =
+      .ok (rest, bumpAtoms ctr (groupBytes groups) (groupAtomCount groups), acc ++ groups.flatMap (·.2)) := by
+  intro groups
+  induction groups with
+  | nil =>
+    intro bs rest ctr acc _ h _
+    rw [writeGroups] at h; cases h
+    simp [readGroups, groupBytes, groupAtomCount, bumpAtoms_zero]
+  | cons g tl ih =>
+    intro bs rest ctr acc hok h hroom
+    obtain ⟨length, as⟩ := g
+    obtain ⟨hne, hlen, h1, hmal, hcap⟩ := hok (length, as) (by simp)
+    simp only at hne hlen h1 hmal hcap
+    have hoktl : ∀ g ∈ tl, GroupOK mal allocCap g := fun g hg => hok g (by simp [hg])
+    obtain ⟨r1, r2⟩ := hroom
+    rw [groupBytes_cons] at r1
+    rw [groupAtomCount_cons] at r2
+    simp only at r1 r2
+    have hasl : as.length ≠ 0 := by intro h0; exact hne (List.length_eq_zero_iff.1 h0)
+    have hz1 : (length == 0) = false := by
+      cases hq : (length == 0) with
+      | false => rfl
+      | true => have := beq_iff_eq.1 hq; omega
+    have hz2 : (as.length == 0) = false := by
+      cases hq : (as.length == 0) with
+      | false => rfl
+      | true => exact absurd (beq_iff_eq.1 hq) hasl
+    have hz : (length == 0 || as.length == 0) = false := by rw [hz1, hz2]; rfl
+    have hroomA : Room ctr (length * as.length) as.length := ⟨by omega, by omega⟩
+    have hroomT : Room (bumpAtoms ctr (length * as.length) as.length) (groupBytes tl) (groupAtomCount tl) := by
+      unfold Room bumpAtoms
+      simp only
+      constructor <;> omega
+    -- the header, in either form, reads back as (length, |as|)
+    have hhdr : ∃ hb t, writeGroups tl = .ok t ∧ bs = hb ++ as.flatten ++ t ∧
+        ∀ tail, readGroupHeader mal strict (hb ++ tail) = .ok (length, as.length, tail) := by
+      have hposform : ∀ (b : Bytes), wv (length : Int) = .ok b →
+          ∀ tail, readGroupHeader mal strict (b ++ tail) = .ok (length, 1, tail) := by
+        intro b hb tail
+        unfold readGroupHeader
+        rw [read_wv hb strict tail]
+        simp only
+        rw [if_neg (by omega), checkedBoundedUsize_nat _ _ hmal]
+      have hnegform : ∀ (b1 b2 : Bytes) (n : Nat), wv (-(length : Int)) = .ok b1 → wv (n : Int) = .ok b2 →
+          ∀ tail, readGroupHeader mal strict (b1 ++ b2 ++ tail) = .ok (length, n, tail) := by
+        intro b1 b2 n hb1 hb2 tail
+        have hr := wv_range hb1
+        unfold readGroupHeader
+        rw [List.append_assoc, read_wv hb1 strict (b2 ++ tail)]
+        simp only
+        rw [if_pos (by omega)]
+        have hmin : ((-(length : Int)) == -(2 : Int) ^ 63) = false := by
+          cases hq : ((-(length : Int)) == -(2 : Int) ^ 63) with
+          | false => rfl
+          | true => have := beq_iff_eq.1 hq; omega
+        rw [hmin]
+        simp only [Bool.false_eq_true, if_false, Int.neg_neg]
+        rw [checkedBoundedUsize_nat _ _ hmal]
+        simp only
+        rw [read_wv hb2 strict tail]
+        simp only
+        rw [checkedUsize_nat]
+      cases as with
+      | nil => exact absurd rfl hne
+      | cons a as' =>
+        cases as' with
+        | nil =>
+          rw [writeGroups] at h
+          cases hw : wv (length : Int) with
+          | error e => rw [hw] at h; simp at h
+          | ok b =>
+            rw [hw] at h
+            simp only at h
+            cases ht : writeGroups tl with
+            | error e => rw [ht] at h; simp at h
+            | ok t =>
+              rw [ht] at h
+              simp only [Except.ok.injEq] at h
+              subst h
+              exact ⟨b, t, rfl, by simp, hposform b hw⟩
+        | cons a2 as'' =>
+          rw [writeGroups] at h
+          case x_2 => intro _ hh; cases hh
+          cases hw1 : wv (-(length : Int)) with
+          | error e => rw [hw1] at h; simp at h
+          | ok b1 =>
+            rw [hw1] at h
+            simp only at h
+            cases hw2 : wv (((a :: a2 :: as'').length : Nat) : Int) with
+            | error e => rw [hw2] at h; simp at h
+            | ok b2 =>
+              rw [hw2] at h
+              simp only at h
+              cases ht : writeGroups tl with
+              | error e => rw [ht] at h; simp at h
+              | ok t =>
+                rw [ht] at h
+                simp only [Except.ok.injEq] at h
+                subst h
+                exact ⟨b1 ++ b2, t, rfl, by simp, hnegform b1 b2 _ hw1 hw2⟩
+    obtain ⟨hb, t, ht, hbs, hread⟩ := hhdr
+    subst hbs
+    simp only [List.length_cons, List.append_assoc]
+    rw [readGroups, hread]
+    simp only [hz, Bool.false_eq_true, if_false]
+    rw [if_neg (by omega)]
+    rw [readAtoms_written as (t ++ rest) ctr acc hlen hroomA]
+    simp only
+    rw [ih t rest _ (acc ++ as) hoktl ht hroomT, bumpAtoms_bumpAtoms, groupBytes_cons, groupAtomCount_cons]
+    simp [List.flatMap_cons]
+
+/-- what the decoder returns once the instruction loop ended in state `s` -/
+def finish (rest : Bytes) (s : DState) : Except Err (Tree × Bytes × Counters) :=
+  if s.stack.length != 1 then .error .SerializationError
+  else
+    match s.stack.getLast? with
+    | none => .error (.Panic "stack[0]: index out of bounds")
+    | some t => .ok (t, rest, s.ctr)
+
+/-- **the decoder inverts the writer at the wire level** (strict and lenient): on a body written from a
+group list and an instruction list it returns what executing the instruction list over the table's
+atoms returns, and leaves exactly the trailing bytes. -/
+theorem deserialize_written (allocCap mal : Nat) (strict : Bool) (ctr : Counters) (rest : Bytes)
+    (groups : List (Nat × List Bytes)) (is : List Int) (cg tbl ci ib : Bytes)
+    (hok : ∀ g ∈ groups, GroupOK mal allocCap g)
+    (h1 : wv (groups.length : Int) = .ok cg) (h2 : writeGroups groups = .ok tbl)
+    (h3 : wv (is.length : Int) = .ok ci) (h4 : writeInstructions is = .ok ib) (hne : is ≠ [])
+    (hroom : Room ctr (groupBytes groups) (groupAtomCount groups)) :
+    deserializeFromStream allocCap ctr (magic ++ (cg ++ tbl ++ ci ++ ib) ++ rest) mal strict =
+      match execList (groups.flatMap (·.2)) is
+          { ctr := bumpAtoms ctr (groupBytes groups) (groupAtomCount groups), pairs := [], stack := [] } with
+      | .error e => .error e
+      | .ok s => finish rest s := by
+  unfold deserializeFromStream
+  have hl : ¬ ((magic ++ (cg ++ tbl ++ ci ++ ib) ++ rest).length < magic.length) := by simp
+  have ht : ((magic ++ (cg ++ tbl ++ ci ++ ib) ++ rest).take magic.length != magic) = false := by simp
+  have hd : (magic ++ (cg ++ tbl ++ ci ++ ib) ++ rest).drop magic.length = cg ++ (tbl ++ (ci ++ (ib ++ rest))) := by
+    simp
+  rw [if_neg hl, ht, hd]
+  simp only [Bool.false_eq_true, if_false]
+  unfold deserializeBody
+  rw [read_wv h1 strict]
+  simp only
+  rw [checkedUsize_nat]
+  simp only
+  have hg := readGroups_written (allocCap := allocCap) (mal := mal) (strict := strict) groups tbl
+    (ci ++ (ib ++ rest)) ctr [] hok h2 hroom
+  rw [hg]
+  simp only
+  rw [read_wv h3 strict]
+  simp only
+  rw [checkedUsize_nat]
+  simp only
+  have hz : (is.length == 0) = false := by
+    cases hq : (is.length == 0) with
+    | false => rfl
+    | true => exact absurd (List.length_eq_zero_iff.1 (beq_iff_eq.1 hq)) hne
+  rw [hz]
+  simp only [Bool.false_eq_true, if_false, List.nil_append]
+  rw [runInstructions_written is ib rest _ h4]
+  cases execList (groups.flatMap (·.2)) is
+      { ctr := bumpAtoms ctr (groupBytes groups) (groupAtomCount groups), pairs := [], stack := [] } with
+  | error e => rfl
+  | ok s => rfl
+
+end Clvm.Serde2026
